@@ -682,3 +682,25 @@ fn c05_face_modify_colour_roles() {
     }
     kani::cover!(count == 3);
 }
+
+//# kind=bounded tier=quick props=C05 bound="two fixed commands in a row on one encoder: Face{bold, curly underline} then FaceModify{italic on}" fns="TTYEncoder::encode,Chunks::push,Chunks::drain,Chunks::clear" | each command is encoded on its own: the parameter list of the first does not leak into the second, parameters are joined by exactly one `;`, and the bytes are exactly `ESC[0;4:3;1m` then `ESC[3m`
+#[kani::proof]
+#[kani::unwind(30)]
+fn c05_two_commands_exact_bytes() {
+    let mut enc = TTYEncoder::new(any_caps());
+    let mut out = Sink::new();
+    let attrs = FaceAttrs::EMPTY | FaceAttrs::UNDERLINE_CURLY | FaceAttrs::BOLD;
+    let r1 = enc.encode(&mut out, TerminalCommand::Face(Face { fg: None, bg: None, attrs }));
+    assert!(r1.is_ok());
+    let n1 = out.len;
+    let m = FaceModify { reset: false, fg: None, bg: None, underline: None, underline_color: None, bold: None, italic: Some(true), blink: None, strike: None };
+    let r2 = enc.encode(&mut out, TerminalCommand::FaceModify(m));
+    assert!(r2.is_ok() && out.fmt_calls == 0);
+    let want1 = b"\x1b[0;4:3;1m";
+    let want2 = b"\x1b[3m";
+    assert!(n1 == want1.len() && out.len == want1.len() + want2.len());
+    let mut i = 0; while i < want1.len() { assert!(out.bytes[i] == want1[i]); i += 1; }
+    let mut j = 0; while j < want2.len() { assert!(out.bytes[n1 + j] == want2[j]); j += 1; }
+    kani::cover!(true);
+    std::mem::forget(r1); std::mem::forget(r2); std::mem::forget(enc);
+}
